@@ -21,7 +21,7 @@ PROPS = {
         'not_decided': 'the alpha/beta dualisation and its expectations',
     },
     'C04': {
-        'rules': ['R25', 'R07'],
+        'rules': ['R25', 'R07', 'R27'],
         'decided': 'expectation marker and event partition survive every shape-preserving '
                    'operation; expectation blocks of mix_support keep every cone list',
         'not_decided': 'everything numeric',
